@@ -33,6 +33,13 @@ class RecChannel(object):
         self.closed = True
 
 
+class Unprintable(object):
+    """an object whose repr() fails (e.g. an object left in an inconsistent state)"""
+
+    def __repr__(self):
+        raise RuntimeError("repr failed")
+
+
 class Obj(object):
     """something that travels by reference"""
 
@@ -48,7 +55,7 @@ def _builtin_exceptions():
 
 
 OUTCOMES = ["value-int", "value-text", "value-tuple", "reference", "tuple-with-ref", "bad-label", "unknown-handler", "wrong-arity",
-            "args-not-a-pair"] + ["raise-" + n for n in _builtin_exceptions()]
+            "args-not-a-pair", "raise-with-unprintable-arg", "raise-with-unprintable-attr"] + ["raise-" + n for n in _builtin_exceptions()]
 
 
 def make_conn(cfg=None, channel=None):
@@ -110,6 +117,12 @@ def ob_dispatch_request(run, interp):
                     return obj
                 if out == "tuple-with-ref":
                     return (1, obj)
+                if out == "raise-with-unprintable-arg":
+                    raise ValueError("bad thing", Unprintable())
+                if out == "raise-with-unprintable-attr":
+                    e = KeyError("k")
+                    e.culprit = Unprintable()
+                    raise e
                 if out.startswith("raise-"):
                     import builtins
                     cls = getattr(builtins, out[6:])
@@ -243,6 +256,11 @@ def spy(self, *a):
     if out == "value-tuple": return (10 ** 5000 if big else 7, None, b"x")
     if out == "reference": return obj
     if out == "tuple-with-ref": return (1, obj)
+    class Unprintable(object):
+        def __repr__(self): raise RuntimeError("repr failed")
+    if out == "raise-with-unprintable-arg": raise ValueError("bad thing", Unprintable())
+    if out == "raise-with-unprintable-attr":
+        e = KeyError("k"); e.culprit = Unprintable(); raise e
     if out.startswith("raise-"):
         import builtins
         cls = getattr(builtins, out[6:])
